@@ -15,6 +15,7 @@ from ..hbase import STUBS
 from ..hlib import c07 as L
 from ..hlib import c07k as K
 from .common import BASE_ASSUMPTIONS, ROOT, Cond, Spec
+from ..runner import innermost as U
 
 
 def date_plane(tier):
@@ -175,7 +176,7 @@ def build(tier):
         pid="C07", source=src, conds=conds,
         functions_encoded=[S.build_list_mtime, cli.BaseClient.parse_ls_date.__func__, cli.BaseClient.format_date_time, S._format_mlsx_time, S._build_mlsx_facts_from_stats, S.build_mlsx_string,
                            S.build_list_string, cli.BaseClient.parse_mlsx_line, cli.BaseClient.parse_list_line_unix, cli.BaseClient.parse_unix_mode, cli.BaseClient.parse_list_line,
-                           S.mlsd.__wrapped__.__wrapped__.__wrapped__, S.list.__wrapped__.__wrapped__.__wrapped__, S.mlst.__wrapped__.__wrapped__.__wrapped__, calendar.isleap],
+                           U(S.mlsd), U(S.list), U(S.mlst), calendar.isleap],
         bounds={
             "date plane (z3 over the interpreted source)": "mtime, server 'now' and client 'now' as civil fields 1971..2104 with 0 <= client_now - server_now <= 3600 s; zone = one fixed offset shared by both sides; "
                                                            "Feb 29 partitioned by leap year" + (" (quick: 6 leap years incl. 2000, 2096, 2104)" if q else " (all 33)") + "; the one-day window at the half-year boundary is exempt (a witness for it is produced and replayed)",
